@@ -131,6 +131,11 @@ def main():
                 rec['solver'] = type(s.solver).__name__
                 rec['closed_form'] = sre(sol)
                 rec['is_exact'] = bool(s.is_exact)
+                try:
+                    from utils import is_solvable
+                    rec['classified_solvable'] = bool(is_solvable(monom, prog))        # what --solvability_check would decide for this goal
+                except Exception as ex_:
+                    rec['classified_solvable'] = None
                 if 'pretty' in (req.get('want') or []):
                     from cli.common import prettify_piecewise
                     rec['pretty'] = prettify_piecewise(sol)
